@@ -129,6 +129,7 @@ class BacktrackingLineSearch(LineSearch):
         self.discount = float(discount)
         self.estimate_step = bool(estimate_step)
         self.alpha = float(alpha)
+        self.initial_alpha = self.alpha
 
         self.total_num_iter = 0
         # Use a default value that allows the shortest step to be < 10 times
@@ -177,7 +178,7 @@ class BacktrackingLineSearch(LineSearch):
             raise ValueError('dir_derivative == 0, no descent can be found')
 
         if not self.estimate_step:
-            alpha = 1.0
+            alpha = self.initial_alpha
         else:
             alpha = self.alpha
 
